@@ -106,7 +106,9 @@ def weave(here, repo, unit, out_rs, out_map, vacuity=False, localise=False):
 
 
 def run_verus(rs, seed=None, rlimit=None, threads=16):
-    cmd = ["verus", os.path.basename(rs), "--cfg", 'feature="async"', "--multiple-errors", "200",
+    # configuration A5: default features, release semantics (`debug_assert!` / `cfg(debug_assertions)` code is compiled out;
+    # arithmetic overflow is an obligation regardless)
+    cmd = ["verus", os.path.basename(rs), "--cfg", 'feature="async"', "-C", "debug-assertions=off", "--multiple-errors", "200",
            "--num-threads", str(threads), "--output-json", "--time", "--error-format=json"]
     # default budget doubled (20): the heaviest proof uses about a tenth of it, so a perturbed SMT context does not
     # turn into a spurious "rlimit exceeded" (which would be exit 2)
